@@ -89,6 +89,9 @@ pub fn run_case(case: &Case) -> Outcome {
             o.label(solver.name());
             o.label(cp.p.class());
             let finest = ladder_cfg(solver, &cp, *t0, 1.0, 1e-10, *frac);
+            if ladder_cfg(solver, &cp, *t0, 1.0, 1e-3, *frac).dt_max > 1.0 {
+                o.label("steps-above-one");
+            }
             let t_len = tlen.min(2500.0 * finest.dt_max).max(20.0 * finest.dt_max);
             let mut errs = vec![];
             let mut worst: f64 = 0.0;
@@ -405,6 +408,15 @@ pub fn run_case(case: &Case) -> Outcome {
 fn strategy(_t: Tier) -> BoxedStrategy<Case> {
     let t0 = || prop_oneof![1 => Just(0.0), 3 => gen::fl(-2.0, 2.0)];
     let ladder = (proptest::sample::select(&ADAPTIVE[..]), problem_closed(), t0(), gen::fl(0.5, 3.0), gen::fl(0.3, 1.0)).prop_map(|(solver, (problem, y0), t0, tlen, frac)| Case::Ladder { solver, problem, y0, t0, tlen, frac });
+    // one ladder in five on a slow time axis: the problem stretched by 10^[1,3.5] (all rates divided by it), start and
+    // length stretched with it - maximal steps far above 1
+    let ladder = (ladder, prop_oneof![4 => Just(0.0), 1 => gen::fl(1.0, 3.5)]).prop_map(|(case, e)| match case {
+        Case::Ladder { solver, problem, y0, t0, tlen, frac } if e > 0.0 => {
+            let s = 10f64.powf(e);
+            Case::Ladder { solver, problem: scale_time(problem, s), y0, t0: t0 * s, tlen: tlen * s, frac }
+        }
+        other => other,
+    });
     let euler = (problem_closed(), t0(), gen::fl(0.5, 2.0), gen::logu(-2.0, -1.0)).prop_map(|((problem, y0), t0, tlen, h0)| Case::EulerLadder { problem, y0, t0, tlen, h0 });
     let second = prop_oneof![1 => Just(None), 2 => (gen::fl(-1.0, 0.5), gen::fl(0.5, 3.0), (gen::fl(-2.0, 2.0), gen::fl(-2.0, 2.0))).prop_map(Some)];
     let cpair = ((proptest::sample::select(&ALL_SOLVERS[..]), 0u8..2, gen::fl(-1.0, 0.5), gen::fl(0.5, 3.0), gen::fl(-2.0, 2.0), (gen::fl(-2.0, 2.0), gen::fl(-2.0, 2.0))), (second, prop_oneof![2 => Just(false), 1 => Just(true)], any::<bool>()), (t0(), gen::fl(0.5, 4.0), gen::logu(-9.0, -3.0), gen::fl(0.3, 1.0)))
@@ -422,7 +434,7 @@ pub fn run(opts: &Opts) -> i32 {
     spec.cases = opts.tier.pick(3_000, 60_000);
     spec.essential = vec![("ladder", 0.1), ("converging", 0.08), ("euler-ladder", 0.05), ("order-observed", 0.04), ("complex-pair", 0.2), ("complex-dim2", 0.1), ("complex-quadrature", 0.03), ("complex-loose-cap", 0.08), ("dyn-pair", 0.2), ("identical-step-sequence", 0.1)];
     spec.max_discard_frac = 0.15;
-    spec.rule = format!("generated: (1) tolerance ladders 1e-3..1e-10 for the six adaptive solvers on closed-form problems (linear constant-coefficient, forced linear, separable; dimension 1-4) with dt_max = U(0.3,1) cap(tol)/L; every yielded state within {K_GLOBAL} tol (t - t0) E (RK/Adams) or {K_GLOBAL_BDF} tol i E (BDF) of the closed-form solution, E = cond(M) max(1, e^(mu (t-t0))); (2) Euler step ladders h0 2^-j: classical first-order bound and error ratio in [1.6,2.4] per halving once h <= 0.02/L; (3) complex problems of dimension 1 and 2 (decoupled components y' = (a+iw)y or y' = -l y + A e^(iwt) with independent phases) against the equivalent real system of twice the dimension, also with components in quadrature (z2 = i z1) and with the maximum step 8x beyond the cap (estimator-limited): the complex formulation's worst error must be within 20x that of the real one: both within the accuracy bound, and equal point by point when the step sequences coincide; (4) the same problem through new() and new_dyn(dim): point counts within one, times within 1e-4 dt_max, states equal after transporting the static point to the dynamic time with the reference flow (64 eps x steps + 1e-3 tol). Non-trivial = ladder whose finest error is < 1e-3 of its coarsest; Euler ladder with at least one judged halving; pairs with >= 20 points. Distinct = distinct case JSON.");
+    spec.rule = format!("generated: (1) tolerance ladders 1e-3..1e-10 for the six adaptive solvers on closed-form problems (linear constant-coefficient, forced linear, separable; dimension 1-4) with dt_max = U(0.3,1) cap(tol)/L, one ladder in five on a time axis stretched by 10^[1,3.5] (maximal steps far above 1); every yielded state within {K_GLOBAL} tol (t - t0) E (RK/Adams) or {K_GLOBAL_BDF} tol i E (BDF) of the closed-form solution, E = cond(M) max(1, e^(mu (t-t0))); (2) Euler step ladders h0 2^-j: classical first-order bound and error ratio in [1.6,2.4] per halving once h <= 0.02/L; (3) complex problems of dimension 1 and 2 (decoupled components y' = (a+iw)y or y' = -l y + A e^(iwt) with independent phases) against the equivalent real system of twice the dimension, also with components in quadrature (z2 = i z1) and with the maximum step 8x beyond the cap (estimator-limited): the complex formulation's worst error must be within 20x that of the real one: both within the accuracy bound, and equal point by point when the step sequences coincide; (4) the same problem through new() and new_dyn(dim): point counts within one, times within 1e-4 dt_max, states equal after transporting the static point to the dynamic time with the reference flow (64 eps x steps + 1e-3 tol). Non-trivial = ladder whose finest error is < 1e-3 of its coarsest; Euler ladder with at least one judged halving; pairs with >= 20 points. Distinct = distinct case JSON.");
     spec.max_shrink_iters = 100;
     run_spec(spec, opts)
 }
